@@ -7,6 +7,7 @@ use plonky2_field::types::PrimeField64;
 
 fuzz_target!(|data: &[u8]| {
     if data.len() < 96 {
+        pv::fuzz_support::record("too_short", None, String::new);
         return;
     }
     let mut st = [0u64; 12];
@@ -15,6 +16,16 @@ fuzz_target!(|data: &[u8]| {
         x.copy_from_slice(&data[i * 8..i * 8 + 8]);
         st[i] = u64::from_le_bytes(x);
     }
+    // non-trivial: a full state; classes: any lane non-canonical (>= p), all lanes small
+    let p = pv::gen::field::P;
+    let label = if st.iter().any(|x| *x >= p) {
+        "state_with_noncanonical_lane"
+    } else if st.iter().all(|x| *x < 1 << 32) {
+        "state_all_small"
+    } else {
+        "state_generic"
+    };
+    pv::fuzz_support::record(label, Some(pv::fuzz_support::fnv(&data[..96])), || format!("{st:x?}"));
     let got = <F as Poseidon>::poseidon(st.map(F));
     let want = pv::oracle::poseidon_ref::permute(&st);
     for i in 0..12 {
